@@ -193,6 +193,11 @@ func (ex *Exec) identVal(name string, env *Env) (Val, bool) {
 		if v, ok := env.fr.params[name]; ok {
 			return v, true
 		}
+		if p, ok := env.fr.params["&"+name]; ok {
+			if rp, isRef := p.(RefPtr); isRef && rp.Elem != nil {
+				return ex.loadLoc(ex.resolve(rp)), true
+			}
+		}
 	}
 	if env.pkg != nil {
 		if o := env.pkg.Scope().Lookup(name); o != nil {
